@@ -2,6 +2,14 @@
 From InvokeVerif Require Import Model.RunnerSM.
 From Coq Require Import Lia.
 
+(** noting a join call touches the join log only *)
+Lemma join_note_fields cur k w n :
+  n_kills (join_note cur k w n) = n_kills n /\ n_expired (join_note cur k w n) = n_expired n /\
+  n_stop (join_note cur k w n) = n_stop n /\ n_steps (join_note cur k w n) = n_steps n /\
+  n_out (join_note cur k w n) = n_out n /\ n_err (join_note cur k w n) = n_err n /\
+  n_kills_after_exit (join_note cur k w n) = n_kills_after_exit n /\ n_intr (join_note cur k w n) = n_intr n.
+Proof. destruct cur; cbn; repeat split; reflexivity. Qed.
+
 (** * [run_joins] *)
 
 (** control state once the outcome is settled *)
@@ -17,9 +25,10 @@ Proof.
   induction todo as [|w rest IH]; intros s cur ec H.
   - cbn. split; reflexivity.
   - cbn [run_joins]. rewrite (H w (or_introl eq_refl)).
-    destruct (IH (fst s, add_steps 1 (snd s)) None ec) as [A B].
+    destruct (IH (fst s, add_steps 1 (join_note cur (fst s) w (snd s))) None ec) as [A B].
     { intros x Hx. apply H. right. exact Hx. }
-    split; [exact A | exact B].
+    split; [exact A|]. rewrite B. cbn [snd add_steps n_stop].
+    destruct (join_note_fields cur (fst s) w (snd s)) as (_ & _ & E & _). rewrite E. reflexivity.
 Qed.
 
 (** in general: either everything left to join has finished (outcome settled), or
@@ -44,7 +53,7 @@ Proof.
   - cbn [run_joins]. destruct (is_run (wget (fst s) w)) eqn:R.
     + cbn [fst]. apply (JR_blocked c (fst s) (w :: rest) cur ec [] w rest); auto.
       intros x [].
-    + specialize (IH (fst s, add_steps 1 (snd s)) None ec). cbn [fst] in IH.
+    + specialize (IH (fst s, add_steps 1 (join_note cur (fst s) w (snd s))) None ec). cbn [fst] in IH.
       inversion IH as [Hall Heq | pre w' rest' Htodo Hpre Hrun Heq].
       * apply JR_done. intros x [<-|Hx]; [exact R | apply Hall; exact Hx].
       * assert (E : match pre, @None bool with [], Some b => b | _, _ => join_bounded (fst s) w' end
@@ -64,8 +73,11 @@ Proof.
   induction todo as [|w rest IH]; intros s cur ec.
   - cbn. split; reflexivity.
   - cbn [run_joins]. destruct (is_run (wget (fst s) w)).
-    + cbn. split; reflexivity.
-    + destruct (IH (fst s, add_steps 1 (snd s)) None ec) as [A B]. split; [exact A | exact B].
+    + cbn [snd add_steps n_kills n_expired].
+      destruct (join_note_fields cur (fst s) w (snd s)) as (E1 & E2 & _). rewrite E1, E2. split; reflexivity.
+    + destruct (IH (fst s, add_steps 1 (join_note cur (fst s) w (snd s))) None ec) as [A B].
+      rewrite A, B. cbn [snd add_steps n_kills n_expired].
+      destruct (join_note_fields cur (fst s) w (snd s)) as (E1 & E2 & _). rewrite E1, E2. split; reflexivity.
 Qed.
 
 Lemma run_joins_stop_le c : forall todo s cur ec,
@@ -74,8 +86,11 @@ Proof.
   induction todo as [|w rest IH]; intros s cur ec.
   - cbn. lia.
   - cbn [run_joins]. destruct (is_run (wget (fst s) w)).
-    + cbn. lia.
-    + specialize (IH (fst s, add_steps 1 (snd s)) None ec). cbn [snd] in IH. exact IH.
+    + cbn [snd add_steps n_stop].
+      destruct (join_note_fields cur (fst s) w (snd s)) as (_ & _ & E & _). rewrite E. lia.
+    + specialize (IH (fst s, add_steps 1 (join_note cur (fst s) w (snd s))) None ec).
+      cbn [snd add_steps n_stop] in IH.
+      destruct (join_note_fields cur (fst s) w (snd s)) as (_ & _ & E & _). rewrite E in IH. exact IH.
 Qed.
 
 (** steps: [run_joins] adds at most |todo| + 1 *)
@@ -85,9 +100,11 @@ Proof.
   induction todo as [|w rest IH]; intros s cur ec.
   - cbn. lia.
   - cbn [run_joins List.length]. destruct (is_run (wget (fst s) w)).
-    + cbn. lia.
-    + specialize (IH (fst s, add_steps 1 (snd s)) None ec). cbn [snd fst] in IH.
-      cbn [add_steps n_steps] in IH. lia.
+    + cbn [snd add_steps n_steps].
+      destruct (join_note_fields cur (fst s) w (snd s)) as (_ & _ & _ & E & _). rewrite E. lia.
+    + specialize (IH (fst s, add_steps 1 (join_note cur (fst s) w (snd s))) None ec). cbn [snd fst] in IH.
+      cbn [add_steps n_steps] in IH.
+      destruct (join_note_fields cur (fst s) w (snd s)) as (_ & _ & _ & E & _). rewrite E in IH. lia.
 Qed.
 
 (** * The invariant of the control state (process startable in the parent) *)
